@@ -92,7 +92,7 @@ func c16Gen(c *engine.C) engine.Case {
 		}
 	}
 	var ignored []string
-	special := engine.PickTag(c, "special-dirs", "none", ".git", ".idea", "coca_reporter", "empty-dir", ".idea+empty", ".git+.idea", ".idea+coca_reporter", ".git+.idea+coca_reporter")
+	special := engine.PickTag(c, "special-dirs", "none", ".git", ".idea", "coca_reporter", "empty-dir", ".idea+empty", ".git+.idea", ".idea+coca_reporter", ".git+.idea+coca_reporter", ".idea+nested-namesake", "coca_reporter+nested-namesake")
 	emptyDir := false
 	switch special {
 	case ".git", ".idea", "coca_reporter":
@@ -101,6 +101,15 @@ func c16Gen(c *engine.C) engine.Case {
 		emptyDir = true
 	case ".idea+empty":
 		ignored, emptyDir = []string{".idea"}, true
+	case ".idea+nested-namesake", "coca_reporter+nested-namesake":
+		// an ignored directory at the root, and directories of the same name further down in ordinary
+		// subdirectories (their files belong to those subdirectories)
+		ig := strings.TrimSuffix(special, "+nested-namesake")
+		ignored = []string{ig}
+		for k, d := range append(append([]string{}, dirs...), "zeta") {
+			files = append(files, c16File{Dir: filepath.Join(d, ig), Lang: "Java", Code: 3 + k, Name: fmt.Sprintf("n%d.java", k)})
+		}
+		dirs = append(dirs, "zeta")
 	case ".git+.idea", ".idea+coca_reporter", ".git+.idea+coca_reporter":
 		// several ignored directories that are neighbours in the directory listing
 		ignored = strings.Split(special, "+")
